@@ -265,6 +265,45 @@ def probe_stationary(inp: Dict[str, Any]) -> Dict[str, Any]:
     return {"ok": not bad, "observed": bad or [f"max drift {worst:.1e}"], "expected": "stationary system keeps P", "predicate": "", "fields": {"kinds": ["stationary"] if bad else [], "k": k, "ksa": bool(inp.get("ksa"))}}
 
 
+def probe_aux_trace(inp: Dict[str, Any]) -> Dict[str, Any]:
+    """the auxiliary density keeps its electron count along the trajectory (the recurrence weights sum to one - C09.weight_sum_exact - and every
+    ingredient, D[P] and the Krylov/response update, is electron conserving), for every member of a zero-padded mixed batch, also with
+    fractional occupations (high electronic temperature)"""
+    import torch
+
+    import seqm.MolecularDynamics as MD
+    from seqm.Molecule import Molecule
+    from seqm.seqm_functions.constants import Constants
+
+    k = inp.get("k", 4)
+    sp = dict(method=inp.get("method", "AM1"), scf_eps=1e-10, scf_converger=[1], sp2=[False])
+    outp = {"molid": [0], "prefix": "/nonexistent/x", "print every": 0, "checkpoint every": 0, "xyz": 0, "h5": {}}
+    s, x, ch, mu = esh.batch(inp["names"])
+    mol = Molecule(Constants(), sp, torch.as_tensor(x), torch.as_tensor(s))
+    if inp.get("ksa", True):
+        xp = {"k": k, "max_rank": inp.get("max_rank", 3), "err_threshold": 0.0, "T_el": inp.get("T_el", 1500)}
+        md = MD.KSA_XL_BOMD(xl_bomd_params=xp, seqm_parameters=sp, timestep=inp.get("dt", 0.4), Temp=inp.get("temp", 400.0), output=outp)
+    else:
+        md = MD.XL_BOMD(xl_bomd_params={"k": k}, seqm_parameters=sp, timestep=inp.get("dt", 0.4), Temp=inp.get("temp", 400.0), output=outp)
+    tore = mol.const.tore.numpy()
+    nel = tore[s].sum(1)
+    worst, where = 0.0, None
+    with contextlib.redirect_stdout(io.StringIO()):
+        torch.manual_seed(inp.get("seed", 1))
+        md.initialize(mol)
+        for i in range(inp.get("steps", 6)):
+            md._do_integrator_step(i, mol, dict())
+            tr = torch.diagonal(md._xl_ctx["P"], dim1=-2, dim2=-1).sum(-1).numpy()
+            d = np.abs(tr - nel)
+            if d.max() > worst:
+                worst, where = float(d.max()), (i + 1, int(d.argmax()))
+    bad = []
+    if worst > inp.get("tol", 1e-7):
+        bad.append(f"auxiliary density of molecule {where[1]} ({inp['names'][where[1]]}) has trace off the electron count by {worst:.2e} at step {where[0]}")
+    return {"ok": not bad, "observed": bad or [f"max trace defect {worst:.1e}"], "expected": "trace(P_aux) = number of electrons at every step", "predicate": "",
+            "fields": {"kinds": ["aux_trace"] if bad else [], "ksa": bool(inp.get("ksa", True)), "T_el": inp.get("T_el", 1500)}}
+
+
 def probe_shadow(inp: Dict[str, Any]) -> Dict[str, Any]:
     """shadow-energy fluctuation ~ dt^2, no drift, and XL trajectory -> BOMD as dt -> 0"""
     names = inp["names"]
@@ -295,7 +334,7 @@ def probe_shadow(inp: Dict[str, Any]) -> Dict[str, Any]:
             "fields": {"kinds": ["shadow"] if bad else [], "k": k}}
 
 
-PROBES = {"consistency": probe_consistency, "stationary": probe_stationary, "shadow": probe_shadow, "restart_phase": probe_restart_replay}
+PROBES = {"aux_trace": probe_aux_trace, "consistency": probe_consistency, "stationary": probe_stationary, "shadow": probe_shadow, "restart_phase": probe_restart_replay}
 
 
 def gen_cases(ctx: Ctx):
@@ -307,6 +346,10 @@ def gen_cases(ctx: Ctx):
     for k in (range(3, 10) if ctx.thorough else [3, int(rng.integers(4, 9)), 9]):
         cases.append(("stationary", {"names": ["h2o"], "k": int(k)}))
     cases.append(("stationary", {"names": ["h2o"], "k": 4, "ksa": True, "tol": 1e-7}))  # (KSA on an all-hydrogen molecule raises inside fock: noted in DESIGN "also seen")
+    # electron count of the auxiliary density: padded member of a mixed batch, fractional occupations, Krylov ranks 1..4
+    cases.append(("aux_trace", {"names": ["ch2o", "h2o"], "k": int(rng.integers(3, 10)), "max_rank": int(rng.integers(3, 5)), "T_el": 20000, "seed": int(rng.integers(1, 99)), "steps": 7}))
+    cases.append(("aux_trace", {"names": ["h2o", "ch2o"], "k": 4, "max_rank": int(rng.integers(1, 5)), "T_el": float(rng.choice([5000, 12000, 30000])), "seed": int(rng.integers(1, 99))}))
+    cases.append(("aux_trace", {"names": ["h2o", "ch4"], "k": 4, "ksa": bool(ctx.seed % 2), "T_el": 3000, "seed": int(rng.integers(1, 99)), "method": str(rng.choice(["AM1", "PM3"]))}))
     cases.append(("shadow", {"names": ["h2"], "k": int(rng.choice([3, 5, 7])), "dt": 0.4, "time": 8.0, "seed": int(rng.integers(1, 99))}))
     if ctx.thorough:
         cases.append(("shadow", {"names": ["h2o"], "k": 6, "dt": 0.4, "time": 8.0, "seed": 5}))
